@@ -47,17 +47,17 @@ func (c StackCfg) Key() string {
 
 // Stack is a built limiter stack plus the observation points the oracles use.
 type Stack struct {
-	Cfg      StackCfg
-	Lim      core.Limiter
-	Default  *limiter.DefaultLimiter // nil for fixedpool (built internally)
-	Queue    *limiter.QueueBlockingLimiter
-	Reg      *RecRegistry
-	Simple   *strategy.SimpleStrategy
-	Precise  *strategy.PreciseStrategy
-	Lookup   *strategy.LookupPartitionStrategy
-	Pred     *strategy.PredicatePartitionStrategy
-	Parts    []string // partition names, in registration order (partitioned strategies)
-	Created  time.Time
+	Cfg        StackCfg
+	Lim        core.Limiter
+	Default    *limiter.DefaultLimiter // nil for fixedpool (built internally)
+	Queue      *limiter.QueueBlockingLimiter
+	Reg        *RecRegistry
+	Simple     *strategy.SimpleStrategy
+	Precise    *strategy.PreciseStrategy
+	Lookup     *strategy.LookupPartitionStrategy
+	Pred       *strategy.PredicatePartitionStrategy
+	Parts      []string // partition names, in registration order (partitioned strategies)
+	Created    time.Time
 	DeadlineAt time.Time
 	// Out counts granted-but-not-completed listeners (harness ledger).
 	Out atomic.Int64
